@@ -222,7 +222,7 @@ pub fn tree_walker(
                 target_base.clone()
             };
 
-            if config.no_clobber && paths::exists(&target)? {
+            if config.no_clobber && paths::lexists(&target)? {
                 let msg = "Destination file exists and --no-clobber is set.";
                 stats.send(StatusUpdate::Error(
                     XcpError::DestinationExists(msg, target)))?;
